@@ -32,6 +32,9 @@ def check(run, model, tier):
     queues.check_next_rtc(run, model, 'CONSUMER.next_rtc', E)
     queues.check_complete_circuit(run, model, 'CONSUMER.circuit')
     queues.check_dispatch_sites(run, model, 'CONSUMER.next_rtc', E)
+    # the queue an active object substitutes for the plain deque must itself behave like one (same ends, same order, overflow gives up the newest fifo event)
+    run.rule('ENDS.locking', 'LockingDeque forwards append/appendleft/pop/popleft to the deque: same end, once, and the deque operations of every path leave the content a deque would have')
+    queues.check_locking_deque(run, model, 'ENDS.locking', None, None)
     cg = callgraph(model)
     hq = model.cls('HsmWithQueues')
     disp = set()
